@@ -149,6 +149,10 @@ def check(fn, name, dom, leaves, facts0, off, rep):
                                 probs.append(('content', 'byte pos of the result is %s[%s], expected old[pos + %s]' % (got[0], got[1], shift)))
                     continue
                 want_final = sp_['final']
+                # a path on which the source block / string pointer is null is outside the property (it talks about byte blocks, C
+                # strings and source strings with content that exist)
+                if any(isinstance(c_, alg.Cond) and (str(c_.a) in ('&src', '&src1') or str(c_.a).startswith('&*obj')) and c_.rel() == '==' and c_.b == 0 for c_ in lf.pc):
+                    continue
                 if isinstance(want_final, tuple) and want_final[0] == 'strlen':
                     # a path on which the string argument is a null pointer is outside what the property talks about (a C string is a
                     # valid pointer); how the library treats it - crash, or like "" - is its own business
@@ -264,7 +268,7 @@ def trim_steps(fn, name, dom, leaves, loop_leaves, off, rep):
         if right:
             # length at the head of the iteration: the value tested against 0
             Ls = [sp.sympify(c.a) for c in lf.pc if isinstance(c, alg.Cond) and c.rel() == '!=' and sp.sympify(c.b) == 0 and _membership(dom, c) is None
-                  and not str(c.a).startswith('arg_')]
+                  and not str(c.a).startswith(('arg_', '&'))]
             if len(Ls) != 1:
                 probs.append('no test "length != 0" in front of the byte test (%s)' % (lf.pc,))
                 continue
